@@ -234,6 +234,14 @@ def r3(ctx, rep, prog):
         k = body_of(fn)
         b = prog.bodies[k]
         acc = agg(b, adt, variant)
+        if not acc:
+            # the accepted value may be assembled by a private builder of the same file (`type_alias_item(ident, attrs, .., ty)`):
+            # the call of the builder is then the construction site in this body
+            for c in b['calls']:
+                for t_ in prog.targets_of_call(c):
+                    h_ = prog.bodies.get(t_)
+                    if h_ is not None and h_['kind'] == 'fn' and h_['file'] == b['file'] and h_['id'].split('::')[-1] not in [p_[0] for p_ in pairs] and agg(h_, adt, variant):
+                        acc.append({'bb': c['bb'], 'file': c['file'], 'line': c['line'], 'via_builder': h_['id']})
         site = {'file': b['file'], 'line': b['line']}
         rep.check(bool(acc), 'R3', f'{fn}:{variant}:constructed', 'accepted value constructed here', f'{fn}: construction of {adt}::{variant} not found', site)
         for e in errs:
